@@ -54,13 +54,14 @@ Definition run_stream (v : val) : val :=
                  if (first =? o_first) && list_eqb Z.eqb sat' o_sat && list_eqb Z.eqb ssat o_ssat && (rootsize =? o_size) then [] else [2]
              | _ => [] end)].
 
-(* ---- mode 4: lessDirEnt  input [units_a units_b utf8_a utf8_b observed]  output [codes ; ms-cfb order says a<b]
-   codes: 1 comparator differs from the model, 2 UTF-8 form of the name differs *)
+(* ---- mode 4: lessDirEnt  input [units_a units_b utf8_a utf8_b observed]
+   output [codes ; ms-cfb order (Coq transcription) says a<b ; both names inside the agreement domain]
+   codes: 1 comparator differs from the model, 2 UTF-8 form of the name (DirEnt.Name) differs *)
 Definition run_less (v : val) : val :=
   let a := zl (vnth 0 v) in let b := zl (vnth 1 v) in
   VL [VZs ((if Bool.eqb (relic_less a b) (vbool (vnth 4 v)) then [] else [1]) ++
            (if bytes_eqb (utf8_of_units a) (vb (vnth 2 v)) && bytes_eqb (utf8_of_units b) (vb (vnth 3 v)) then [] else [2]));
-      of_bool (cfb_less a b)].
+      of_bool (cfb_less a b); of_bool (forallb unit_agrees a && forallb unit_agrees b)].
 
 (* ---- mode 5: allocSectorTables  input [ss sat msat msatlist status sat' msat' msatlist']  codes as mode 3 *)
 Definition run_tables (v : val) : val :=
